@@ -426,8 +426,7 @@ func c11FaultProbe(t *T) {
 	store := &capCore{t: t, inner: storeIn, faultAt: -1, label: "store."}
 	cfs, err := cache.NewReadOnlyFS(src, newCapFS(store, []string{"OpenFile", "Mkdir"}).(cacheStoreIface), cache.ReadOnlyOptions{})
 	must(t, err)
-	// calls of the fill on the store: Open f, Mkdir ., (Stat fallback: Open ., file.Stat, file.Close), OpenFile f, Write x4, CloseWritten
-	store.faultAt = 8
+	store.faultKind, store.faultAt = "file.Write", 2 // the third chunk
 	if f, err := cfs.Open("f"); err == nil {
 		f.Close()
 		if store.fired != "" {
